@@ -325,7 +325,9 @@ Proof. vm_compute. split; [eexists; split; reflexivity|]. split; [eexists; split
    through the loader that fails its j-th block load (any j), the first n calls of next either return Some of
    the first n entries the specification lists, one after the other (and the call after the last one None),
    or the run of calls fails with exactly the injected error: never another entry, never a wrong None, never
-   a panic. *)
+   a panic.  Non-vacuity: C12_iterator_fault_example above exhibits both disjuncts on a written 2-level file
+   (5 calls without the fault return the 4 entries and None; with load 3 failing the first call returns the
+   first entry and two calls fail with the injected error). *)
 From Grenad.model Require Import Base Block Reader.
 From Grenad.proofs Require Import ReaderRefine IterCalls.
 
